@@ -101,7 +101,8 @@ class MinSetCover():
         self.solver.optimize()
         if self.solver.get_model_status() == "kOptimal":
             subset_cover_sol = self.solver.get_values(self.subset_vars)
-            self._solution = [i for i in range(len(self.subsets)) if subset_cover_sol[i] == 1]
+            # (solver values of the 0/1 variables are only integral up to the solver tolerance, e.g. 0.9999999999999999)
+            self._solution = [i for i in range(len(self.subsets)) if round(subset_cover_sol[i]) == 1]
             self._is_solved = True
             self.solve_statistics = {
                 "solve_time": time.perf_counter() - start_time,
